@@ -34,6 +34,15 @@ def obligations(tier, seed=0):
     for s, t in [(a, b) for a in same[:8] for b in same[:8]]:
         for fn in ('<', '<=', '>', '>=', '==', '!=', 'in'):
             add(fn=fn, s=s, t=t, entry='op')
+    if tier == 'thorough':
+        # longer endpoints and exponent offsets
+        big = [[P(12, 0), P(12, 0)], [P(12, 0), P(13, 0)], [N(12, 0), P(12, 0)], [N(13, 0), N(12, 0)], [P(20, -5), P(9, 7)], [N(9, 7), P(20, -5)], [N(20, 3), N(20, 3)], [Z, P(30, 0)]]
+        for s in big:
+            for t in big:
+                for fn in ('mpi_lt', 'mpi_le', 'mpi_gt', 'mpi_ge'):
+                    add(fn=fn, s=s, t=t)
+                for fn in ('<', '>=', '==', 'in'):
+                    add(fn=fn, s=s, t=t, entry='op')
     # an interval compared with itself (same object): only a point interval gives a definite answer
     for s in same + other:
         for fn in ('mpi_lt', 'mpi_le', 'mpi_gt', 'mpi_ge'):
